@@ -499,3 +499,109 @@ func init() {
 	}
 	_ = fmt.Sprintf
 }
+
+func init() {
+	families["walk"] = func(r *rng, n int, emit emitFn) {
+		g := &pgen{r: r, noLayout: true}
+		for i := 0; i < n; {
+			src := g.program(1 + r.intn(3))
+			emit(hx(src), "-1")
+			i++
+			k := 1 + r.intn(4)
+			for j := 0; j < k && i < n; j++ {
+				emit(hx(src), fmt.Sprint(r.intn(40)))
+				i++
+			}
+		}
+	}
+	families["lit"] = func(r *rng, n int, emit emitFn) {
+		digits := "0123456789"
+		for i := 0; i < n; i++ {
+			var s string
+			switch r.intn(8) {
+			case 0:
+				s = pick(r, numberLits)
+			case 1:
+				s = pick(r, stringLits)
+			case 2: // long decimal around 2^64
+				s = pick(r, []string{"18446744073709551615", "18446744073709551616", "18446744073709551614", "99999999999999999999", "000018446744073709551615", "9223372036854775808"})
+			case 3:
+				s = "0x" + strings.Repeat("0", r.intn(4))
+				for j := 0; j < 1+r.intn(17); j++ {
+					s += string("0123456789abcdefABCDEF"[r.intn(22)])
+				}
+			case 4:
+				for j := 0; j < 1+r.intn(22); j++ {
+					s += string(digits[r.intn(10)])
+				}
+			case 5:
+				for j := 0; j < r.intn(4); j++ {
+					s += string(digits[r.intn(10)])
+				}
+				s += "."
+				for j := 0; j < r.intn(4); j++ {
+					s += string(digits[r.intn(10)])
+				}
+			case 6:
+				s = pick(r, []string{"1", "0", "12", "1.5", ".5", "00"}) + pick(r, []string{"e", "E"}) + pick(r, []string{"", "+", "-"}) + pick(r, []string{"", "0", "5", "12"})
+			default:
+				s = randBytes(r)
+			}
+			emit(hx(s))
+		}
+	}
+	families["script"] = func(r *rng, n int, emit emitFn) {
+		g := &pgen{r: r}
+		for i := 0; i < n; i++ {
+			g.lets = nil
+			var sb strings.Builder
+			k := r.intn(6)
+			for j := 0; j < k; j++ {
+				var st string
+				switch r.intn(10) {
+				case 0, 1:
+					st = g.letStmt(1)
+				case 2:
+					st = "let " + pick(r, []string{"x = a", "= 1", "y", "z = (", "w = 'unterminated"})
+				case 3:
+					st = pick(r, []string{"T | where (", "T | bogus", "T | where $left.a", "T | take 1.5", "| count", "T | where iff(1)", "let", "T T", "'"})
+				case 4:
+					st = pick(r, []string{"", " ", "// comment only", "\n", "// c\n"})
+				case 5:
+					st = "T | where a == x and b == n" // uses lets if defined, columns otherwise
+				default:
+					st = g.tabular(1+r.intn(2), 1, r.intn(4))
+				}
+				// spread the statement over lines at blanks
+				if r.chance(1, 3) {
+					st = strings.ReplaceAll(st, " ", pick(r, []string{"\n", " \n ", "\r\n", " // c\n"}))
+				}
+				sb.WriteString(st)
+				last := j == k-1
+				if !last || r.chance(1, 2) {
+					sb.WriteString(pick(r, []string{";", ";\n", "; ", ";\n\n", " ;\r\n", ";;", "; // c\n"}))
+				}
+			}
+			if r.chance(1, 2) {
+				sb.WriteString("\n")
+			}
+			s := sb.String()
+			if r.chance(1, 40) {
+				// a very long line somewhere
+				long := "// " + strings.Repeat("x", 65530+r.intn(20)) + "\n"
+				p := 0
+				if len(s) > 0 {
+					p = r.intn(len(s) + 1)
+				}
+				for p < len(s) && p > 0 && s[p-1] != '\n' {
+					p++
+				}
+				if p > len(s) {
+					p = len(s)
+				}
+				s = s[:p] + long + s[p:]
+			}
+			emit(hx(s), pick(r, []string{"stdin", "stdin", "file", "files", "ofile"}))
+		}
+	}
+}
